@@ -307,6 +307,8 @@ struct ThreadModel {
     finished: bool,
     failed: bool,
     dropped: bool,
+    /// the channel this task found empty at its latest read attempt (cleared by its next turn)
+    blocked_on: Option<u64>,
     /// global Step count at this thread's latest Step (or at its spawn)
     last_step_seq: u64,
     steps: u64,
@@ -1050,26 +1052,42 @@ impl Sim {
                 let live = self.live_threads();
                 let window = self.progress_window_factor * (live + 1);
                 let now = self.step_seq;
-                let mut starved: Option<(u32, u64)> = None;
+                let mut starved: Option<(u32, u64, Option<u64>)> = None;
                 for m in self.threads.values() {
                     if m.finished || m.failed || m.dropped || m.parked {
                         continue;
                     }
+                    // a task suspended in a read of a channel that (by the model) holds nothing
+                    // is waiting, not starved - whether the VM lets it poll or puts it to sleep
+                    if let Some(c) = m.blocked_on
+                        && self.chans.get(&c).is_none_or(|q| q.is_empty())
+                    {
+                        continue;
+                    }
                     if now - m.last_step_seq > window {
-                        starved = Some((m.ordinal, now - m.last_step_seq));
+                        starved = Some((m.ordinal, now - m.last_step_seq, m.blocked_on));
                     }
                 }
                 if let Some(m) = self.threads.get_mut(thread) {
                     m.last_step_seq = now;
                     m.steps += 1;
+                    m.blocked_on = None;
                 }
-                if let Some((o, gap)) = starved {
-                    self.violate(
-                        "live:task-starved",
-                        format!(
-                            "task t{o} was runnable but got no turn for {gap} scheduler turns (window {window}, {live} live tasks)"
+                if let Some((o, gap, blocked_on)) = starved {
+                    match blocked_on {
+                        Some(c) => self.violate(
+                            "live:reader-not-resumed",
+                            format!(
+                                "task t{o} is suspended in a read of chan{c} although a value has been available in it for {gap} scheduler turns (window {window}, {live} live tasks)"
+                            ),
                         ),
-                    );
+                        None => self.violate(
+                            "live:task-starved",
+                            format!(
+                                "task t{o} was runnable but got no turn for {gap} scheduler turns (window {window}, {live} live tasks)"
+                            ),
+                        ),
+                    }
                 }
             }
             Event::Spawn {
@@ -1132,6 +1150,12 @@ impl Sim {
                     .or_default()
                     .push_back(digest.to_string());
                 self.chan_writes += 1;
+                let now = self.step_seq;
+                for m in self.threads.values_mut() {
+                    if m.blocked_on == Some(*chan) {
+                        m.last_step_seq = now;
+                    }
+                }
             }
             Event::ChanRead {
                 thread,
@@ -1160,6 +1184,9 @@ impl Sim {
                 let t = self.ordinal(*thread, false);
                 self.hash.u64(8 | (t as u64) << 8 | *chan << 24);
                 self.count("probe_blocked_read");
+                if let Some(m) = self.threads.get_mut(thread) {
+                    m.blocked_on = Some(*chan);
+                }
                 if !self.chans.entry(*chan).or_default().is_empty() {
                     self.violate(
                         "chan:blocked-with-value-available",
